@@ -251,10 +251,6 @@ def analyse(items):
     return A
 
 
-def _inside(ev, bid):
-    return any(c[0] == bid for c in ev['chain'])
-
-
 def _taint(A):
     events, blocks = A.events, A.blocks
     n = len(events)
@@ -264,9 +260,10 @@ def _taint(A):
         w['add'] = False       # expected to have no effect, the real code may apply it (F3 direction)
     # F1 sources: indentation-closed block whose last clause is not the selected one (the skip test keeps
     # consulting it: it is never closed by the following nodes).
-    # F6 sources: indentation-closed block that ends together with an indentation-closed block nested in it (a
-    # node that leaves several levels closes only the innermost one; the outer block stays open and absorbs the
-    # clauses of a following block).
+    # F6 sources: indentation-closed block (last clause selected) that is not closed by the very next line: closing
+    # happens only on accepted node lines, one level per line, never on group or keyword lines.  Typical: it ends
+    # together with an indentation-closed block nested in it, or it is followed by a group.  The block stays open
+    # and absorbs the clauses of a following block of the same path.
     A.f1_sources = []
     A.f6_sources = []
     for b in blocks:
@@ -276,8 +273,13 @@ def _taint(A):
         if not b['locsel'][-1]:
             kinds.append('F1')
             A.f1_sources.append(b['id'])
-        if any(c['close'] == 'indent' and c['end'] == b['end'] and any(x[0] == b['id'] for x in c['chain'])
-               for c in blocks):
+        simultaneous = any(c['close'] == 'indent' and c['end'] == b['end'] and any(x[0] == b['id'] for x in c['chain'])
+                           for c in blocks)
+        nxt = events[b['end'] + 1] if b['end'] + 1 < n else None
+        closed_at_once = nxt is not None and nxt['ev'] == 'w' and not simultaneous
+        if b['locsel'][-1] and not closed_at_once:
+            # the next line is not a node line that closes this block (group line, keyword line, end of text, or the
+            # node line is used up by an inner block): the block may linger and absorb a later block of the same path
             kinds.append('F6')
             A.f6_sources.append(b['id'])
         if not kinds:
@@ -471,8 +473,6 @@ def enum_core():
         for at in range(nclauses):
             for first in (False, True):
                 for ishape, itruth, iclose in variants:
-                    if iclose == 'indent' and first:
-                        pass       # inner block closed by the following node of the same clause
                     nm = _Names()
                     inner = _simple_block(nm, ishape, itruth, iclose, 'a0')
                     items = [D('a0', 'int', nm.val()),
@@ -742,7 +742,7 @@ def repair(items):
     """rewrite modifications whose target may be absent in the real run, drop properties from redefinitions,
     make types consistent; iterate to a fixpoint"""
     for _ in range(4):
-        A = _analyse_lenient(items)
+        A = analyse(items)
         flat = []
         _flat_nodes(items, flat)
         changed = False
@@ -799,10 +799,6 @@ def _coerce(v, ty):
     if ty == 'str':
         return v if isinstance(v, str) else 's%d' % int(v)
     return bool(v)
-
-
-def _analyse_lenient(items):
-    return analyse(items)
 
 
 def decorate(items, rng):
@@ -864,10 +860,7 @@ def _atom(rng, avail, all_names, want):
 def _make_expr(rng, avail, all_names, want):
     r = rng.random()
     if r < 0.45:
-        x = _atom(rng, avail, all_names, want)
-        if x['e'] == 'lit':
-            return x
-        return x
+        return _atom(rng, avail, all_names, want)
     other = rng.random() < 0.5
     if r < 0.75:
         # and
@@ -911,7 +904,6 @@ def gen_mustfail(rng):
             pos = rng.choice(idx_blocks) + 1
         else:
             i = rng.choice(idx_blocks)
-            later = [j for j in range(i + 1, len(items)) if items[j]['k'] in ('def', 'mod')]
             # only positions where every item since the block is a plain node
             pos = i + 1
             while pos < len(items) and items[pos]['k'] in ('def', 'mod'):
